@@ -532,6 +532,14 @@ class Interp:
             return ite(obj.c, self.get_attr(obj.a, name, node), self.get_attr(obj.b, name, node))
         if isinstance(obj, Op) and obj.op == "structobj" and name in ("size", "format"):
             return Const(self.struct_layout(obj.args[0].v)[1]) if name == "size" else obj.args[0]
+        if isinstance(obj, Op) and obj.op == "loopret" and len(obj.args) == 2 and isinstance(self.simp(obj.args[1]), Ref):
+            # an object handed out of a loop by `return`: its attributes are those it had in the returning iteration
+            inner = self.get_attr(obj.args[1], name, node)
+            if isinstance(inner, FuncV):
+                return FuncV(inner.info, obj) if inner.selfv is not None and not isinstance(inner.selfv, ClassV) else inner
+            if isinstance(inner, (Const, Undef, Ext, ClassV)):
+                return inner
+            return Op("loopret", obj.args[0], inner)
         if isinstance(obj, Ref):
             o = self.heap[obj.oid]
             if isinstance(o, Instance):
@@ -555,6 +563,22 @@ class Interp:
             flds = getattr(o, "fields", None)
             if flds and name in flds and isinstance(o, ListObj):
                 return o.items[flds.index(name)][1]
+            ntc = getattr(o, "ntclass", None)
+            if ntc is not None:
+                # a NamedTuple class with methods / properties / class-level constants
+                cv = self.class_attr(ntc, name)
+                if cv is not None:
+                    if isinstance(cv, FuncV):
+                        if "staticmethod" in cv.info.deco:
+                            return FuncV(cv.info)
+                        if "classmethod" in cv.info.deco:
+                            return FuncV(cv.info, ClassV(ntc))
+                        if "property" in cv.info.deco or "cached_property" in cv.info.deco:
+                            return self.call_func(cv.info, obj, [], {}, node)
+                        return FuncV(cv.info, obj)
+                    return cv
+                if name == "_fields":
+                    return Const(tuple(flds or ()))
             return Op("bound", obj, Const(name))
         if isinstance(obj, ModuleV):
             ns = self.module_ns(obj.name) if obj.name in self.prog.modules else None
@@ -762,7 +786,18 @@ class _ExprMixin:
             return self.heap[v.oid]
         return None
 
+    def ev_bool(self, node):
+        """an expression evaluated for its truth value only (conditions): and / or / not combine truth values here, whereas
+        as values  a or b  is one of its operands"""
+        if isinstance(node, ast.BoolOp):
+            return self.ev_BoolOp(node, boolean=True)
+        if isinstance(node, ast.UnaryOp) and isinstance(node.op, ast.Not):
+            return not_(self.ev_bool(node.operand))
+        return self.truth(self.ev(node))
+
     def ev_UnaryOp(self, n):
+        if isinstance(n.op, ast.Not):
+            return not_(self.ev_bool(n.operand))
         v = self.ev(n.operand)
         if isinstance(n.op, ast.Not):
             return not_(self.truth(v))
@@ -774,13 +809,13 @@ class _ExprMixin:
             return Op("invert", v)
         return v
 
-    def ev_BoolOp(self, n):
+    def ev_BoolOp(self, n, boolean=False):
         vals = []
         isand = isinstance(n.op, ast.And)
         pushed = 0
         try:
             for e in n.values:
-                v = self.ev(e)
+                v = self.ev_bool(e) if boolean else self.ev(e)
                 vals.append(v)
                 t = self.truth(v)
                 # short circuit: later operands evaluated under the guard
@@ -792,6 +827,13 @@ class _ExprMixin:
             for _ in range(pushed):
                 self.guard.pop()
         ts = [self.truth(v) for v in vals]
+        if not boolean and len(vals) == len(n.values) and not all(isinstance(t, Const) for t in ts[:-1]) and \
+                not all(self.boolish_value(v) for v in vals):
+            # value semantics:  a or b  is  a if a else b ;  a and b  is  b if a else a   (defaults like `opt or fallback`)
+            res = vals[-1]
+            for v, t in zip(reversed(vals[:-1]), reversed(ts[:-1])):
+                res = ite(t, v, res) if not isand else ite(t, res, v)
+            return res
         if all(isinstance(t, Const) for t in ts[:-1]):
             # python value semantics when prefix decided
             for v, t in zip(vals, ts):
@@ -801,6 +843,15 @@ class _ExprMixin:
                     return v
             return vals[-1]
         return and_(*ts) if isand else or_(*ts)
+
+    def boolish_value(self, v):
+        from .terms import _boolish
+        v = self.simp(v)
+        if isinstance(v, Const):
+            return isinstance(v.v, bool)
+        if isinstance(v, Ite):
+            return self.boolish_value(v.a) and self.boolish_value(v.b)
+        return _boolish(v)
 
     def ev_Compare(self, n):
         left = self.ev(n.left)
@@ -878,7 +929,7 @@ class _ExprMixin:
         return None
 
     def ev_IfExp(self, n):
-        c = self.truth(self.ev(n.test))
+        c = self.ev_bool(n.test)
         if isinstance(c, Const):
             return self.ev(n.body if c.v else n.orelse)
         self.guard.append(c)
@@ -1240,12 +1291,31 @@ class _CallMixin:
                         fnode.attr, getattr(n, "lineno", "?")))
                 recv = self.alloc(ListObj(self.born_now(), [("v", Op("splat", val), TRUE)], "list"))
                 self.assign(fnode.value, recv, n)
+            elif fnode.attr in ("sort", "reverse") and isinstance(fnode.value, ast.Name) and isinstance(self.simp(recv), (Ite, Op)):
+                # x.sort() / x.reverse() where x is (on some path) a list the analysis keeps symbolic - e.g. the file names
+                # of a directory listing: every such alternative becomes a tracked list so that the re-ordering is not lost
+                def promote(v):
+                    v = self.simp(v) if not isinstance(v, Ite) else v
+                    if isinstance(v, Ite):
+                        return ite(v.c, promote(v.a), promote(v.b))
+                    if isinstance(v, Op) and v.op in ("getitem", "elem", "list", "m:split", "m:splitlines", "m:readlines", "sorted",
+                                                     "tuple_of", "reversed", "call:os.listdir", "call:glob.glob"):
+                        return self.alloc(ListObj(self.born_now(), [("v", Op("splat", v), TRUE)], "list"))
+                    return v
+                new_recv = promote(self.simp(recv))
+                if new_recv != self.simp(recv):
+                    recv = new_recv
+                    self.assign(fnode.value, recv, n)
             return self.call_method(recv, fnode.attr, args, kwargs, n)
         f = self.ev(fnode)
         return self.call_value(f, args, kwargs, n)
 
     def call_method(self, recv, name, args, kwargs, node):
         recv = self.simp(recv)
+        if name == "__contains__" and len(args) == 1 and not kwargs:
+            return self.cmp("in", args[0], recv)
+        if name == "__getitem__" and len(args) == 1 and not kwargs:
+            return self.getitem(recv, args[0], node)
         if isinstance(recv, Ite):
             # distribute over alternatives (objects of different dynamic type)
             self.guard.append(recv.c)
@@ -1255,6 +1325,10 @@ class _CallMixin:
             b = self.call_method(recv.b, name, args, kwargs, node) if self.feasible() else Undef()
             self.guard.pop()
             return ite(recv.c, a, b)
+        if isinstance(recv, Op) and recv.op == "loopret" and len(recv.args) == 2 and isinstance(self.simp(recv.args[1]), Ref):
+            f = self.get_attr(recv, name, node)
+            if isinstance(f, FuncV):
+                return self.call_value(f, args, kwargs, node)
         if isinstance(recv, Ref):
             o = self.heap[recv.oid]
             if isinstance(o, Instance):
@@ -1265,6 +1339,17 @@ class _CallMixin:
                 if flds and name in flds and o.concrete():
                     # a namedtuple field that holds a callable
                     return self.call_value(o.items[flds.index(name)][1], args, kwargs, node)
+                ntc = getattr(o, "ntclass", None)
+                if ntc is not None and isinstance(self.class_attr(ntc, name), FuncV):
+                    return self.call_value(self.get_attr(recv, name, node), args, kwargs, node)
+                if flds and name == "_replace" and o.concrete() and not args and set(kwargs) <= set(flds):
+                    ref2 = self.alloc(ListObj(self.born_now(), [("v", kwargs.get(f_, it[1]), TRUE) for f_, it in zip(flds, o.items)], "tuple"))
+                    self.heap[ref2.oid].fields = list(flds)
+                    if ntc is not None:
+                        self.heap[ref2.oid].ntclass = ntc
+                    return ref2
+                if flds and name == "_asdict" and o.concrete() and not args:
+                    return self.x_dict([self.mk_list([self.mk_list([Const(f_), it[1]], "tuple") for f_, it in zip(flds, o.items)])], {}, node)
                 return self.list_method(recv, o, name, args, kwargs, node)
             if isinstance(o, DictObj):
                 return self.dict_method(recv, o, name, args, kwargs, node)
@@ -1337,6 +1422,13 @@ class _CallMixin:
             if is_const(edge, str) and len(edge.v) >= len(args[0].v):
                 return Const(getattr(edge.v, name)(args[0].v))
         if name == "join":
+            if args and isinstance(self.simp(args[0]), GenV):
+                # sep.join(<generator object>): the elements the generator yields
+                its_ = self.seq_items(args[0], node)
+                lst_ = self.mk_list([])
+                self.heap[lst_.oid].items = list(its_)
+                self.heap[lst_.oid].comp = "gen"
+                args = [lst_] + list(args[1:])
             lo = self.as_list(args[0]) if args else None
             if lo is not None and is_const(recv, str):
                 parts = []
@@ -1437,6 +1529,12 @@ class _CallMixin:
             if isinstance(key, Const) and o.concrete():
                 hit = o.lookup(key)
                 return hit[0] if hit else dflt
+            if self.is_dispatch_table(o) and all(isinstance(k_, Const) for k_, _, _, _ in o.entries):
+                # table.get(<data value>[, default]) on a small table of code objects: one alternative per key
+                res = dflt
+                for k_, v_, _, _ in reversed(self.dedup(o)):
+                    res = ite(compare("eq", key, k_), v_, res)
+                return res
             return Op("dictget", ref, key, dflt)
         if name in ("update", "pop", "clear", "setdefault", "popitem"):
             self.note_mutation(ref, o, "dict." + name, node, tuple(args))
@@ -1522,6 +1620,10 @@ class _CallMixin:
             pos0 = [a for a in f.args[1:] if not (isinstance(a, Op) and a.op == "kv")]
             kw0.update(kwargs)
             return self.call_value(f.args[0], pos0 + list(args), kw0, node)
+        if isinstance(f, Op) and f.op.startswith("attr:") and len(f.args) == 1:
+            # a method taken as a value from an object the analysis keeps symbolic (match = RE.match; match(line)):
+            # calling it is calling the method
+            return self.call_method(f.args[0], f.op[5:], list(args), dict(kwargs), node)
         if isinstance(f, Op) and f.op == "bound" and is_const(f.args[1], str):
             # a bound method taken as a value (d.__getitem__, lines.append, ...)
             if f.args[1].v == "__getitem__" and len(args) == 1 and not kwargs:
@@ -1612,8 +1714,6 @@ class _CallMixin:
         if any(b.split(".")[-1] == "NamedTuple" for b in cinfo.bases):
             # class X(NamedTuple): annotated class-level names are the fields, in order; assigned values are defaults
             flds = [(st.target.id, st.value) for st in cinfo.node.body if isinstance(st, ast.AnnAssign) and isinstance(st.target, ast.Name)]
-            if cinfo.methods:
-                raise AnalysisError("NamedTuple class %s with methods is not modelled" % cinfo.qual)
             vals = list(args)
             for nm, dflt in flds[len(args):]:
                 if nm in kwargs:
@@ -1626,11 +1726,41 @@ class _CallMixin:
                 raise AnalysisError("%s(...) called with %d of %d fields" % (cinfo.qual, len(vals), len(flds)))
             ref = self.alloc(ListObj(self.born_now(), [("v", v, TRUE) for v in vals], "tuple"))
             self.heap[ref.oid].fields = [nm for nm, _ in flds]
+            self.heap[ref.oid].ntclass = cinfo
             return ref
         inst = Instance(cinfo, self.born_now())
         ref = self.alloc(inst)
         init = self.class_attr(cinfo, "__init__")
         self.event("new", (cinfo.qual, ref, tuple(args)), node)
+        decos = [ast.unparse(d) for d in cinfo.node.decorator_list]
+        if not isinstance(init, FuncV) and any(d.split("(")[0].split(".")[-1] == "dataclass" for d in decos):
+            # @dataclass: the generated __init__ stores the annotated fields in order (defaults / default factories)
+            flds = [(st.target.id, st.value) for st in cinfo.node.body if isinstance(st, ast.AnnAssign) and isinstance(st.target, ast.Name)
+                    and "ClassVar" not in ast.unparse(st.annotation)]
+            if len(args) > len(flds) or set(kwargs) - {nm for nm, _ in flds}:
+                raise AnalysisError("%s(...): arguments do not fit the dataclass fields" % cinfo.qual)
+            for i, (nm, dflt) in enumerate(flds):
+                if i < len(args):
+                    v = args[i]
+                elif nm in kwargs:
+                    v = kwargs[nm]
+                elif isinstance(dflt, ast.Call) and getattr(dflt.func, "id", getattr(dflt.func, "attr", "")) == "field":
+                    kws = {k_.arg: k_.value for k_ in dflt.keywords}
+                    if "default_factory" in kws:
+                        v = self.call_value(self.ev_in_module(kws["default_factory"], cinfo.module.name), [], {}, node)
+                    elif "default" in kws:
+                        v = self.ev_in_module(kws["default"], cinfo.module.name)
+                    else:
+                        raise AnalysisError("%s(...) called without field %s" % (cinfo.qual, nm))
+                elif dflt is not None:
+                    v = self.ev_in_module(dflt, cinfo.module.name)
+                else:
+                    raise AnalysisError("%s(...) called without field %s" % (cinfo.qual, nm))
+                inst.attrs[nm] = v
+            post = self.class_attr(cinfo, "__post_init__")
+            if isinstance(post, FuncV):
+                self.call_func(post.info, ref, [], {}, node)
+            return ref
         if isinstance(init, FuncV):
             self.call_func(init.info, ref, args, kwargs, node)
         elif base_exc:
@@ -2012,7 +2142,15 @@ class _StmtMixin:
     def st_Delete(self, st):
         for t in st.targets:
             if isinstance(t, ast.Subscript):
-                self.event("delitem", (self.ev(t.value), self.ev(t.slice)), st)
+                base, key = self.simp(self.ev(t.value)), self.ev(t.slice)
+                self.event("delitem", (base, key), st)
+                o = self.heap.get(base.oid) if isinstance(base, Ref) else None
+                if isinstance(o, ListObj) and not (isinstance(key, Op) and key.op == "sliceobj"):
+                    self.list_method(base, o, "pop", [key], {}, st)          # del xs[i]  removes what  xs.pop(i)  removes
+                elif isinstance(o, DictObj):
+                    self.dict_method(base, o, "pop", [key], {}, st)
+                elif isinstance(o, (ListObj,)) or isinstance(base, Ite):
+                    raise AnalysisError("del on a container value the analysis cannot follow (line %s)" % getattr(st, "lineno", "?"))
             elif isinstance(t, ast.Name):
                 self.frames[-1].env.pop(t.id, None)
 
@@ -2049,12 +2187,12 @@ class _StmtMixin:
         fr.rdead.append(g)
 
     def st_Assert(self, st):
-        c = self.truth(self.ev(st.test))
+        c = self.ev_bool(st.test)
         self.event("assert", (c,), st)
         # asserts are removed under -O: they never constrain the path here
 
     def st_If(self, st):
-        c = self.truth(self.ev(st.test))
+        c = self.ev_bool(st.test)
         if isinstance(c, Const):
             self.exec_block(st.body if c.v else st.orelse)
             return
@@ -2083,7 +2221,7 @@ class _StmtMixin:
                         self.store_name(name, val)
                     g = TRUE
                     if case.guard is not None:
-                        g = self.truth(self.ev(case.guard))
+                        g = self.ev_bool(case.guard)
                     self.guard.append(g)
                     try:
                         if self.feasible():
@@ -2280,7 +2418,7 @@ class _LoopMixin:
     st_AsyncFor = st_For
 
     def st_While(self, st):
-        c = self.truth(self.ev(st.test))
+        c = self.ev_bool(st.test)
         if isinstance(c, Const) and not c.v:
             self.exec_block(st.orelse)
             return
@@ -2531,6 +2669,9 @@ class _LoopMixin:
         L.breaks = brk
         for w in locs:
             L.carried[self.loc_name(w)] = (init[w], self.loc_get(w), closed.get(w), w)
+        def rel_now(d):
+            kn = L.body_guard_set | L.body_guard_full
+            return and_(*[c for c in (d.args if isinstance(d, Op) and d.op == "and" else (d,)) if c not in kn])
         # returns inside the body -> existential condition after the loop
         body_ret = fr.ret
         new_rc = fr.ret_conds[nrc0:]
@@ -2539,7 +2680,12 @@ class _LoopMixin:
             ex = Op("exists", Const(L.lid), or_(*new_rc))
             del fr.ret_conds[nrc0:]
             fr.ret_conds.append(ex)
-            fr.ret = ite(ex, Op("loopret", Const(L.lid), _strip_undef(body_ret)), saved_ret)
+            always_first = kind == "for" and any(rel_now(c_) == TRUE for c_ in new_rc)
+            if always_first:
+                # `for x in xs: return f(x)`: the value of the first element, if there is one
+                fr.ret = ite(ex, subst(_strip_undef(body_ret), {L.idx: Const(0)}), saved_ret)
+            else:
+                fr.ret = ite(ex, Op("loopret", Const(L.lid), _strip_undef(body_ret)), saved_ret)
         else:
             fr.ret = saved_ret
         new_dead = fr.dead[ndead0:]
@@ -2599,7 +2745,7 @@ class _LoopMixin:
             outer_log.update(writes)
         if kind == "while" and not may_exit_early:
             # the loop was left because its condition became false
-            c_post = self.truth(self.ev(st.test))
+            c_post = self.ev_bool(st.test)
             if not isinstance(c_post, Const):
                 fr.rdead.append(c_post)
             L.exit_cond = c_post
@@ -2621,6 +2767,8 @@ class _LoopMixin:
                 ref = self.alloc(ListObj(self.born_now(), items, o.typ))
                 if getattr(o, "fields", None):
                     self.heap[ref.oid].fields = o.fields
+                if getattr(o, "ntclass", None) is not None:
+                    self.heap[ref.oid].ntclass = o.ntclass
                 return ref
             return term
         return subst(term, m)
@@ -2714,7 +2862,7 @@ class _LoopMixin:
         L.entry_guard_set = pre_set
         try:
             if L.kind == "while":
-                c = self.truth(self.ev(st.test))
+                c = self.ev_bool(st.test)
                 if final:
                     L.cond = c
                 self.guard.append(c)
@@ -2930,6 +3078,10 @@ class _ExtMixin:
         els = self.concrete_iter(self.simp(a[0]))
         if els is not None:
             return self.mk_list(els)
+        lo = self.as_list(self.simp(a[0]))
+        if lo is not None:
+            # a copy of a tracked sequence (also: the elements a generator expression produces)
+            return self.alloc(ListObj(lo.born, list(lo.items), "list"))
         return Op("list", a[0])
 
     def x_tuple(self, a, k, n):
